@@ -317,6 +317,7 @@ PROPS = {
         "assumptions": [],
         "units": [
             {"pkg": T, "test": "TestVerifC10", "quick": (16, 2500), "thorough": (16, 250000), "timeout_q": 900},
+            {"pkg": T, "test": "TestVerifC10_edit", "quick": (8, 5000), "thorough": (16, 150000)},
         ],
     },
     "C15": {
@@ -501,7 +502,12 @@ EXTENSIONS = {
     "C09": ("In one case of eight route 0 is also announced for 820-1300 host prefixes and the targets then start new sessions, so "
             "that the exported copies are packed into UPDATEs filled to the size limit: every host route must arrive with the "
             "reference attributes."),
-    "C10": ("Every attribute of the route a policy hands on must report the length it serialises to (what the UPDATE packer budgets with)."),
+    "C10": ("Every attribute of the route a policy hands on must report the length it serialises to (what the UPDATE packer budgets with), "
+            "and the flattened attribute list (what is sent) is rendered and compared with the model as well as the accessors. "
+            "Statement edits (TestVerifC10_edit): a statement configured piecewise through AddStatement / DeleteStatement(all=false) "
+            "with requests of 1-13 parts (seven attribute conditions, route action, five modification actions) must read back as a "
+            "statement freshly built from the parts the model holds; a request that cannot be applied as a whole is refused and "
+            "changes nothing."),
     "C11": ("The attribute objects of a set are built by the constructors, decoded from the wire, reconstructed from an OLD speaker's "
             "form (RFC 6793) or edited through the Path API (AS prepended) before packing."),
     "C12": ("A rival source V (no graceful restart, session stays up) announces some of the prefixes with a longer AS_PATH: in the Loc-RIB "
